@@ -186,6 +186,9 @@ def judgeWCast (s1 : Shape3 Rat) (parts : List (Iso3 Rat × Shape3 Rat)) (pos : 
         | some st =>
           if h.status = 3 then   -- PenetratingOrWithinTargetDist
             (if sep0 ≤ target + sl then "pass" else s!"fail penetrating-status-but-separated-by {sep0.toF}")
+          -- some part starts within the target distance: with `stop_at_penetration = false` it is ignored while it
+          -- moves away, so the least separation at the reported impact is not constrained
+          else if sep0 ≤ target + sl then "pass"
           else if rabs (st - target) ≤ sl * (1 + vmag vel) then "pass"
           else s!"fail separation-at-impact={st.toF} target={target.toF} toi={h.toi.toF}"
     | none =>
